@@ -343,4 +343,122 @@ theorem writeLayerTrait_perm (l : Layer) (t : LTypes) (m : Option MetaTbl) (le :
   simp only [ha', hb, replaceSboms]
   exact replaceExecdLoop_ext _ _ ⟨sameOptDir_some.mpr hab, rfl, rfl⟩ hpe hnd hall
 
+/-! ### a restored `exec.d` written again: what it held before does not reach the result -/
+
+theorem erase_set_same (d : Dir) (n : Bytes) (x : Node) : (d.set n x).erase n = d.erase n := by
+  simp [Dir.set, Dir.erase, List.filter_filter]
+
+/-- `Dir` level: an existing `exec.d` directory is removed first, so its entries (files, links, directories) are gone
+before anything is written -/
+theorem replaceExecdLoop_forgets (l : Layer) (d old : Dir) (progs : List (Bytes × Option Bytes)) :
+    replaceExecdLoop { l with dir := some (d.set nExecd (.dir old)) } progs =
+      replaceExecdLoop { l with dir := some (d.erase nExecd) } progs := by
+  rw [replaceExecdLoop_some _ _ rfl, replaceExecdLoop_some _ _ rfl]
+  have h1 : clearExecd (d.set nExecd (.dir old)) = d.erase nExecd := by
+    unfold clearExecd; rw [Dir.get_set_eq]; exact erase_set_same d nExecd _
+  have h2 : clearExecd (d.erase nExecd) = d.erase nExecd := by
+    unfold clearExecd; rw [Dir.get_erase_eq]
+  rw [h1, h2, Dir.get_erase_eq]
+
+/-- every name is a file created by the call itself -/
+def OwnOnly (ns : List (Bytes × XEnt)) : Prop := ∀ e ∈ ns, ∃ b, e.2 = .own b
+
+theorem lookup_ownOnly : ∀ {ns : List (Bytes × XEnt)}, OwnOnly ns → ∀ n, List.lookup n ns = none ∨ ∃ b, List.lookup n ns = some (.own b)
+  | [], _, n => Or.inl rfl
+  | (k, v) :: r, h, n => by
+    by_cases hn : n = k
+    · subst hn
+      obtain ⟨b, hb⟩ := h (n, v) List.mem_cons_self
+      exact Or.inr ⟨b, by simp [List.lookup, ← hb]⟩
+    · have hb : (n == k) = false := by simpa using hn
+      simp only [List.lookup, hb]
+      exact lookup_ownOnly (fun e he => h e (List.mem_cons_of_mem _ he)) n
+
+theorem ownOnly_set {ns : List (Bytes × XEnt)} (h : OwnOnly ns) (n b : Bytes) :
+    OwnOnly ((n, XEnt.own b) :: ns.filter (fun kv => kv.1 != n)) := by
+  intro e he
+  rcases List.mem_cons.mp he with rfl | he
+  · exact ⟨b, rfl⟩
+  · exact h e (List.mem_filter.mp he).1
+
+theorem copyTo_ownOnly (fs : XFs) (h : OwnOnly fs.names) (n b : Bytes) (fuel : Nat) :
+    fs.copyTo n b (fuel + 1) = some (fs.setName n (.own b)) := by
+  unfold XFs.copyTo
+  rcases lookup_ownOnly h n with h0 | ⟨b', h0⟩ <;> rw [h0]
+
+/-- the names after copying `progs` into a directory that holds only files of the call's own -/
+def ownNames : List (Bytes × XEnt) → List (Bytes × Bytes) → List (Bytes × XEnt)
+  | acc, [] => acc
+  | acc, (n, b) :: r => ownNames ((n, .own b) :: acc.filter (fun kv => kv.1 != n)) r
+
+theorem ownNames_ownOnly : ∀ (progs : List (Bytes × Bytes)) (acc : List (Bytes × XEnt)), OwnOnly acc → OwnOnly (ownNames acc progs)
+  | [], _, h => h
+  | (n, b) :: r, _, h => ownNames_ownOnly r _ (ownOnly_set h n b)
+
+theorem copyAll_ownOnly : ∀ (progs : List (Bytes × Bytes)) (fs : XFs), OwnOnly fs.names →
+    XFs.copyAll fs progs = ({ fs with names := ownNames fs.names progs }, true)
+  | [], fs, _ => rfl
+  | (n, b) :: r, fs, h => by
+    unfold XFs.copyAll
+    rw [copyTo_ownOnly fs h n b 39]
+    exact copyAll_ownOnly r (fs.setName n (.own b)) (ownOnly_set h n b)
+
+def ownView (ns : List (Bytes × XEnt)) : Dir :=
+  ns.map (fun kv => (kv.1, match kv.2 with | .own b => Node.file b | _ => Node.dir []))
+
+theorem toDir_ownOnly (fs : XFs) (h : OwnOnly fs.names) : fs.toDir = ownView fs.names := by
+  unfold XFs.toDir ownView
+  apply List.map_congr_left
+  intro e he
+  obtain ⟨b, hb⟩ := h e he
+  rw [hb]
+  rfl
+
+theorem ownView_ownNames : ∀ (progs : List (Bytes × Bytes)) (acc : List (Bytes × XEnt)),
+    ownView (ownNames acc progs) = (copyExecd (ownView acc) (progs.map (fun p => (p.1, some p.2)))).1
+  | [], _ => rfl
+  | (n, b) :: r, acc => by
+    simp only [ownNames, List.map_cons, copyExecd]
+    rw [ownView_ownNames r]
+    congr 2
+    simp [ownView, Dir.set, Dir.erase, List.filter_map, Function.comp_def]
+
+theorem lookup_map_some : ∀ (progs : List (Bytes × Bytes)) (n : Bytes),
+    List.lookup n (progs.map (fun p => (p.1, some p.2))) = (List.lookup n progs).map some
+  | [], _ => rfl
+  | (k, b) :: r, n => by
+    by_cases hn : n = k
+    · subst hn; simp [List.lookup]
+    · have hb : (n == k) = false := by simpa using hn
+      simp only [List.map_cons, List.lookup, hb]
+      exact lookup_map_some r n
+
+/-- storage level: the wipe leaves no pre-existing name, so the loop only ever creates files of its own — it
+completes, writes no pre-existing storage, and `exec.d` is what the `Dir`-level loop writes into an empty directory -/
+theorem replaceExecdX_spec (fs : XFs) (progs : List (Bytes × Bytes)) (hne : progs ≠ []) :
+    ∃ r, replaceExecdX fs progs = (some r, true) ∧ r.data = fs.data ∧ r.outer = fs.outer ∧ OwnOnly r.names ∧
+      r.toDir = (copyExecd [] (progs.map (fun p => (p.1, some p.2)))).1 := by
+  have he : progs.isEmpty = false := by cases progs <;> simp_all
+  have h0 : OwnOnly ({ fs with names := [] } : XFs).names := fun e he => by cases he
+  refine ⟨{ fs with names := ownNames [] progs }, ?_, rfl, rfl, ownNames_ownOnly progs [] h0, ?_⟩
+  · unfold replaceExecdX
+    rw [he, copyAll_ownOnly progs _ h0]
+    rfl
+  · rw [toDir_ownOnly _ (ownNames_ownOnly progs [] h0)]
+    exact ownView_ownNames progs []
+
+/-- … and a lookup in it gives the wanted program's own bytes -/
+theorem copyExecd_get_wanted (progs : List (Bytes × Bytes)) (hnd : (progs.map (·.1)).Nodup) (n : Bytes) :
+    Dir.get (copyExecd [] (progs.map (fun p => (p.1, some p.2)))).1 n = (List.lookup n progs).map Node.file := by
+  have hall : ∀ p ∈ progs.map (fun p => (p.1, some p.2)), p.2.isSome = true := by
+    intro p hp
+    obtain ⟨q, _, rfl⟩ := List.mem_map.mp hp
+    rfl
+  have hnd' : ((progs.map (fun p => ((p.1, some p.2) : Bytes × Option Bytes))).map (·.1)).Nodup := by
+    simpa [List.map_map, Function.comp_def] using hnd
+  rw [(copyExecd_spec _ hall hnd' []).2 n]
+  unfold progLookup
+  rw [lookup_map_some]
+  cases List.lookup n progs <;> rfl
+
 end CnbVerif.Det
